@@ -325,6 +325,10 @@ def gen_cases(ctx, p, count):
                 v = c["b"][(j0 * n) * nv + i] * sc
                 c["b"][(j0 * n) * nv + i] = ll.to_single(v) if single else v
             c["kind"] = kind + "+zerocol"
+        if nrhs >= 2 and k % 2 == 1:
+            # B and X with different leading dimensions (both larger than n): every column of X must be refined against ITS
+            # right-hand side, and nothing outside the n leading rows may be touched
+            c["ldb"] = n + rng.choice([1, 2, 5]); c["ldx"] = n + rng.choice([3, 4, 7])
         if k % 3 == 0:
             # direct call with a matrix that differs from the factored one by up to 5..45 % per entry:
             # linear convergence, 2..ITMAX correction steps, the halving test and the iteration cap are exercised
@@ -348,6 +352,9 @@ def eval_batch(ctx, p, exe, cases, tag, ienv=None):
         r = byid.get(c["id"])
         if not r or not r.get("complete"):
             continue
+        if r.get("padbad"):
+            ctx.violation("p%sgssvx wrote %d values outside the n leading rows of B or X (ldb = %s, ldx = %s)" % (p, r["padbad"], c.get("ldb"), c.get("ldx")),
+                          {"kind": "ssvx", "prec": p, "case": c, "ienv": ienv}, key={"class": "padding", "prec": p})
         real_conj = False      # since the fix of F3 (s/dgstrs accept CONJ) real CONJ is checked like TRANS, NC and NR
         calls = gsrfs_calls(r)
         for ci, call in enumerate(calls):
